@@ -1,6 +1,7 @@
 """C10 - What the driver resolves is exactly what the build steps see (pure functions,
 exhaustive products / words)."""
 import io
+import json
 import itertools
 import os
 import shutil
@@ -309,6 +310,37 @@ def exec_parts(case):
 
 
 # -------------------------------------------------------------------------------------------
+def names_across_processes(report):
+    """The driver, write_glyphmap, write_fea and write_font are separate processes, each with its own hash seed: the glyph
+    name of a sequence (also one long enough to be shortened) must be the same in all of them."""
+    import subprocess
+    import sys
+    from vmc.drive import cli
+    from vmc.props import c04
+    from nanoemoji.glyph import glyph_name
+
+    seqs = [tuple(c04.LONG[:n]) for n in range(1, 15)] + [tuple(c04.SIGMA[(i * 3 + j) % len(c04.SIGMA)] for j in range(n)) for n in (1, 2, 5, 11, 13, 14) for i in range(3)]
+    code = ("import sys,json;from absl import flags;flags.FLAGS(['x']);from nanoemoji.glyph import glyph_name;"
+            "print(json.dumps([glyph_name(tuple(s)) for s in json.loads(sys.argv[1])]))")
+    here = [glyph_name(s) for s in seqs]
+    for seed in ("1", "2", "random"):
+        env = cli.env(hashseed=None if seed == "random" else seed)
+        r = subprocess.run([sys.executable, "-c", code, json.dumps([list(s) for s in seqs])], env=env, capture_output=True, text=True)
+        if r.returncode != 0:
+            from vmc.core.report import HarnessError
+
+            raise HarnessError("glyph_name subprocess failed: " + r.stderr[-300:])
+        there = json.loads(r.stdout.strip().splitlines()[-1])
+        report.evaluations += len(seqs)
+        report.executions += 1
+        for s_, a_, b_ in zip(seqs, here, there):
+            if a_ != b_:
+                report.add_violation("C10.name-same-in-every-process", {"kind": "name-process", "seq": list(s_), "seed": seed},
+                                     f"{[hex(c) for c in s_]}: glyph name {a_!r} in this process, {b_!r} in a process with PYTHONHASHSEED={seed}", "name-depends-on-process")
+                break
+    report.fps["names-across-processes"] += 1
+
+
 def execute(case):
     kind = case.get("kind")
     if kind == "config":
@@ -359,6 +391,7 @@ def run(report, tier, only=None):
         from vmc.props import c04
 
         c04.pure_level(report, tier, prefix="C10")
+        names_across_processes(report)
     if only in (None, "parts"):
         devs, _ = lattice.states({k_: scenes.DIMS[k_] for k_ in ("outline", "place", "where", "tol", "metrics", "vb_size", "vb_aspect", "stack", "grp", "nglyphs")}, 1 if tier == "quick" else 2, scenes.relevant)
         cases = [dict(d, kind="parts") for d in devs if d.get("tol", 0.1) != 0]
